@@ -26,12 +26,14 @@ type vC18 struct {
 	early    []bool // per request: the response overtakes the sender
 	silent   []bool // per request: the server never answers
 	n        int
+	onWrite  func(b []byte)
 }
 
 func (h *vC18) respond(id uint32) {
 	hdr := vAppendDelimited(nil, vWire(&pb.ResponseHeader{CallId: proto.Uint32(id)}, false))
 	body := vAppendDelimited(hdr, vWire(&pb.GetResponse{Result: &pb.Result{}}, false))
 	err := h.c.receive(&vReader{b: vFrame(body, uint32(len(body)))})
+	vPending, vUnmarshalFails = nil, nil // a response for a caller that gave up is not decoded
 	verifAssert(err == nil, "a well-formed response is processed without error")
 }
 
@@ -44,20 +46,30 @@ func VerifInFlight() {
 		h.early = append(h.early, verifBool())
 		h.silent = append(h.silent, verifBool())
 	}
-	conn.onWrite = func(b []byte) {
+	h.onWrite = func(b []byte) {
 		k := h.n
 		h.n++
 		if k < ncalls && h.early[k] && !h.silent[k] {
 			h.respond(uint32(k + 1)) // the response is handled before Write returns
 		}
 	}
+	conn.onWrite = h.onWrite
 	reg := vReg("t,,1")
 	var calls []hrpc.Call
+	var gaveUp []bool
 	for i := 0; i < ncalls; i++ {
-		var ctx context.Context = context.Background()
+		ctx, cancel := context.WithCancel(context.Background())
 		g := vGet(ctx, "k", reg)
 		calls = append(calls, g)
+		gaveUp = append(gaveUp, false)
+		if !h.early[i] && verifBool() {
+			// the caller gives up after the request was written, its response still arrives
+			gaveUp[i] = true
+			defer cancel()
+			conn.onWrite = func(b []byte) { cancel(); h.onWrite(b) }
+		}
 		err := c.trySend(g)
+		conn.onWrite = h.onWrite
 		verifAssert(err == nil, "send on a healthy connection succeeds")
 		if !h.early[i] && !h.silent[i] && verifBool() {
 			h.respond(uint32(i + 1)) // answered before the next request is sent
@@ -76,6 +88,8 @@ func VerifInFlight() {
 		if h.silent[i] {
 			outstanding++
 			verifAssert(vResults(calls[i]) == 0, "an unanswered request has no result")
+		} else if gaveUp[i] {
+			verifAssert(vResults(calls[i]) == 0, "a request whose caller gave up is not delivered")
 		} else {
 			verifAssert(vResults(calls[i]) == 1, "an answered request has its result")
 		}
@@ -90,4 +104,30 @@ func VerifInFlight() {
 		verifReach("waiting")
 		verifAssert(conn.armed, "a connection with unanswered requests has its read deadline armed")
 	}
+}
+
+// VerifInFlightConcurrent: the reader goroutine processes the response to request 1 while the
+// sender writes request 2, which the server never answers — every interleaving at the
+// synchronisation points (mutexes, connection calls): afterwards one request is outstanding
+// and the read deadline must be armed.
+func VerifInFlightConcurrent() {
+	conn := &vConn{yield: true}
+	c := vNewClient(conn, 1)
+	h := &vC18{c: c, conn: conn}
+	reg := vReg("t,,1")
+	g1 := vGet(context.Background(), "a", reg)
+	verifAssert(c.trySend(g1) == nil, "send 1")
+	g2 := vGet(context.Background(), "b", reg)
+	done := make(chan struct{})
+	go func() {
+		h.respond(1)
+		close(done)
+	}()
+	verifAssert(c.trySend(g2) == nil, "send 2")
+	<-done
+	vPending, vUnmarshalFails = nil, nil
+	verifAssert(vResults(g1) == 1 && vResults(g2) == 0, "request 1 answered, request 2 outstanding")
+	verifAssert(int(int32(c.inFlight)) == 1, "one request in flight")
+	verifAssert(conn.armed, "the read deadline is armed while a request is outstanding")
+	verifReach("waiting")
 }
